@@ -58,7 +58,7 @@ package at
 //@   at call (*SelectStmt).Restore#1: assert one-field-per-key-column: arg_self.Fields != nil && len(arg_self.Fields.Fields) == len(callres("GetPrimaryKeyOnlyName#1", 0))
 //@   loop 1 invariant index: rangeindex1 >= -1 && rangeindex1 + 1 <= len(pks)
 //@   loop 1 invariant fields-so-far: len(fields) == rangeindex1 + 1
-//@   may_panic
+//@   nopanic
 //@ func (*selectForUpdateExecutor).buildLockKey
 //@   trusted
 //@   ensures true
@@ -239,7 +239,7 @@ package at
 
 //@ func (*selectForUpdateExecutor).ExecContext
 //@   prop C03
-//@   requires s != nil && s.execContext != nil && s.execContext.TxCtx != nil && s.execContext.Conn != nil && s.parserCtx != nil && s.cfg != nil && ctx != nil && f != nil
+//@   requires s != nil && s.execContext != nil && s.execContext.TxCtx != nil && s.execContext.Conn != nil && s.parserCtx != nil && s.cfg != nil && ctx != nil && f != nil && s.parserCtx.SelectStmt != nil
 //@   let cv := ctxvalue(ctx, tm.seataContextVariable)
 //@   requires cv != nil ==> isT(cv, *tm.ContextVariable) && cv.(*tm.ContextVariable) != nil
 //@   let global := (cv != nil && cv.(*tm.ContextVariable).Xid != "") || s.execContext.IsRequireGlobalLock
